@@ -352,6 +352,162 @@ def build_bulk(rng, cid, big=False):
     return Case(cid, simple_run(cid, text, [doc]), meta, True, ["bulk"])
 
 
+# ---------------------------------------------------------------- the same call site re-entered inside its own argument
+# A recursive function whose body calls a method with the recursive call as the argument: while the argument is being
+# evaluated the very same call site runs again (with another receiver) one level down.  The receiver of every level must
+# be the array that was evaluated before its arguments.  Python mirrors of the functions give the ideal result.
+
+def _tree(rng, depth, top=True):
+    n = rng.randint(1 if top else 0, 4)
+    out = []
+    for _ in range(n):
+        if depth > 0 and rng.random() < (0.55 if top else 0.4):
+            out.append(_tree(rng, depth - 1, False))
+        else:
+            out.append(V.scalar(rng, False))
+    if top and not any(isinstance(x, list) for x in out):
+        out.insert(rng.randrange(len(out) + 1), _tree(rng, max(depth - 1, 0), False))
+    return out
+
+
+def _contains(lst, v):
+    return any(pyref.binop("==", v, item) for item in lst)
+
+
+def build_reentrant(rng, cid):
+    kind = rng.choice(["dup", "dup", "dup-seed", "chain", "chain-stmt", "contains", "contains-mix", "mutual", "member", "fan", "push-contains"])
+    doc = {"n": 1}
+    lines = []          # expected output lines
+    if kind in ("dup", "dup-seed", "member"):
+        t = _tree(rng, rng.choice([1, 2, 3, 4]))
+        via_doc = rng.random() < 0.5
+        src_t = "$.t" if via_doc else pyref.literal(t)
+        if via_doc:
+            doc["t"] = t
+        if kind == "dup":
+            fn = ("function dup(t, out) { for (c in t) { if (c is array) { out.push(dup(c, [])) } else { out.push(c) } } return out }"
+                  if rng.random() < 0.5 else
+                  "function dup(t, out) {\n for (i = 0; i < t.length(); i++) {\n if (t[i] is array) out.push(dup(t[i], [])) else out.push(t[i])\n }\n return out\n}")
+            if "i = 0" in fn:
+                # the loop counter is not a parameter: keep it in one
+                fn = ("function dup(t, out, i) {\n for (i = 0; i < t.length(); i++) {\n if (t[i] is array) { out.push(dup(t[i], [], 0)) } else { out.push(t[i]) }\n }\n return out\n}")
+                call = "dup(%s, [], 0)" % src_t
+            else:
+                call = "dup(%s, [])" % src_t
+            want = t
+        elif kind == "dup-seed":
+            fn = "function dup(t, out, d) { for (c in t) { if (c is array) { out.push(dup(c, [\"d\" + d], d + 1)) } else { out.push(c) } } return out }"
+            call = "dup(%s, [\"top\"], 1)" % src_t
+
+            def mirror(t, out, d):
+                for c in t:
+                    out.append(mirror(c, ["d" + pyref.fmt_f(float(d))], d + 1) if isinstance(c, list) else c)
+                return out
+            want = mirror(t, ["top"], 1)
+        else:
+            fn = ("function walk(t, o) { for (c in t) { if (c is array) { o.items.push(walk(c, {items: [], tag: 1}).items) } else { o.items.push(c) } } return o }")
+            call = "walk(%s, {items: []}).items" % src_t
+            want = t
+        prog = fn + "\n{ print \"r\", %s\n print \"t\", %s }" % (call, src_t)
+        lines = ["r " + pyref.pretty(want), "t " + pyref.pretty(t)]
+        hist = "%s over %s" % (kind, pyref.pretty(t))
+    elif kind in ("chain", "chain-stmt", "mutual", "fan"):
+        n = rng.randint(1, 6) if kind != "fan" else rng.randint(2, 6)
+        k = rng.choice([10.0, 1.0, -1.0, 0.5])
+        top = [V.scalar(rng, False) for _ in range(rng.randint(0, 2))]
+        ks = pyref.literal(float(k))
+        if kind == "chain":
+            fn = "function chain(n, out) { if (n == 0) { return out } return out.push(chain(n - 1, [n * %s])) }" % ks
+            call = "chain(%d, %s)" % (n, pyref.literal(top))
+
+            def mirror(n, out):
+                if n == 0:
+                    return out
+                out.append(mirror(n - 1, [float(n) * k]))
+                return out
+            want = mirror(n, V.clone(top))
+        elif kind == "chain-stmt":
+            fn = "function chain(n, out) { if (n > 0) { out.push(chain(n - 1, [n * %s, n])) } out.push(\"end\" + n) return out }" % ks
+            fn = fn.replace(" } out.push", " }\n out.push").replace(") return out", ")\n return out")
+            call = "chain(%d, %s)" % (n, pyref.literal(top))
+
+            def mirror(n, out):
+                if n > 0:
+                    out.append(mirror(n - 1, [float(n) * k, float(n)]))
+                out.append("end" + pyref.fmt_f(float(n)))
+                return out
+            want = mirror(n, V.clone(top))
+        elif kind == "mutual":
+            fn = ("function f(n, a) { if (n == 0) { return a }\n a.push(g(n - 1))\n return a }\n"
+                  "function g(n) { return f(n, [n * %s]) }" % ks)
+            call = "f(%d, %s)" % (n, pyref.literal(top))
+
+            def mf(n, a):
+                if n == 0:
+                    return a
+                a.append(mf(n - 1, [float(n - 1) * k]))
+                return a
+            want = mf(n, V.clone(top))
+        else:
+            fn = ("function tree(n, out) { if (n > 0) { out.push(tree(n - 1, [n]))\n out.push(tree(n - 2, [n, n])) }\n return out }")
+            call = "tree(%d, %s)" % (n, pyref.literal(top))
+
+            def mirror(n, out):
+                if n > 0:
+                    out.append(mirror(n - 1, [float(n)]))
+                    out.append(mirror(n - 2, [float(n), float(n)]))
+                return out
+            want = mirror(n, V.clone(top))
+        prog = fn + "\nBEGIN { print \"r\", %s }" % call
+        lines = ["r " + pyref.pretty(want)]
+        hist = "%s n=%d" % (kind, n)
+    else:
+        n = rng.randint(1, 6)
+        pool = [0.0, 1.0, 2.0, 3.0, True, False, "1", "0", "true", "", None, 5.0]
+        L = [[rng.choice(pool) for _ in range(rng.randint(0, 4))] for _ in range(n + 1)]
+        Ls = pyref.literal(L)
+        if kind == "contains":
+            fn = "function has(n, a, L) { if (n == 0) { return a.length() } return a.contains(has(n - 1, L[n - 1], L)) }"
+
+            def mirror(n, a):
+                if n == 0:
+                    return float(len(a))
+                return _contains(a, mirror(n - 1, L[n - 1]))
+            want = [mirror(i, L[i]) for i in range(n + 1)]
+            prog = fn + "\nBEGIN { L = %s\n %s }" % (Ls, "\n ".join("print \"r%d\", has(%d, L[%d], L)" % (i, i, i) for i in range(n + 1)))
+            lines = ["r%d %s" % (i, pyref.pretty(w)) for i, w in enumerate(want)]
+        elif kind == "contains-mix":
+            fn = ("function mix(n, a, L) { if (n == 0) { return 0 }\n if (a.contains(mix(n - 1, L[n - 1], L))) { return a.length() }\n return a.contains(n) }")
+
+            def mirror(n, a):
+                if n == 0:
+                    return 0.0
+                if _contains(a, mirror(n - 1, L[n - 1])):
+                    return float(len(a))
+                return _contains(a, float(n))
+            want = [mirror(i, L[i]) for i in range(n + 1)]
+            prog = fn + "\nBEGIN { L = %s\n %s }" % (Ls, "\n ".join("print \"r%d\", mix(%d, L[%d], L)" % (i, i, i) for i in range(n + 1)))
+            lines = ["r%d %s" % (i, pyref.pretty(w)) for i, w in enumerate(want)]
+        else:
+            # contains decides what is pushed; the array is the function's own literal copy
+            fn = ("function pc(n, a, L) { if (n == 0) { return a }\n a.push(a.contains(pc(n - 1, [n - 1, L[n - 1].length()], L).length()))\n return a }")
+
+            def mirror(n, a):
+                if n == 0:
+                    return a
+                inner = mirror(n - 1, [float(n - 1), float(len(L[n - 1]))])
+                a.append(_contains(a, float(len(inner))))
+                return a
+            want = mirror(n, [1.0, 2.0, 3.0])
+            prog = fn + "\nBEGIN { L = %s\n print \"r\", pc(%d, [1, 2, 3], L) }" % (Ls, n)
+            lines = ["r " + pyref.pretty(want)]
+        hist = "%s n=%d L=%s" % (kind, n, Ls)
+    docj = V.to_json(doc)
+    meta = {"prog": prog, "doc": docj, "history": [hist], "arrays": ["(parameters of a recursive function)"],
+            "expect_outcome": "ok", "expect_stdout": "".join(l + "\n" for l in lines)}
+    return Case(cid, simple_run(cid, prog, [docj]), meta, True, ["reentrant", kind])
+
+
 def _calls(e, n, methods):
     if e[0] != "call":
         return False
@@ -387,7 +543,9 @@ class C15(Check):
             "(fresh variable, inside the document, inside an object slot, inside an array slot), elements of every kind incl. unset, "
             "nested arrays and objects; after every step the result, every array and its length are printed and compared with a "
             "Python list machine (contains = '==' element by element in order, sort stable/numeric iff all numbers/copy); "
-            "alias-free by construction; non-trivial = a removal followed by an insertion on the same array, or a nested call")
+            "alias-free by construction; plus recursive functions whose body calls push/contains with the recursive call as the "
+            "argument (the same call site re-entered inside its own argument: deep copy, chains, fan-out, mutual recursion, member-path "
+            "receivers) vs Python mirrors; non-trivial = a removal followed by an insertion on the same array, or a nested call")
 
     def generate(self, rng, tier):
         n = 700 if tier == "quick" else 20000
@@ -402,6 +560,8 @@ class C15(Check):
             cases.append(build_case(rng, "h%d" % k, nsteps, names))
         for k in range(30 if tier == "quick" else 400):
             cases.append(build_bulk(rng, "b%d" % k, big=(k % 15 == 7)))
+        for k in range(150 if tier == "quick" else 3000):
+            cases.append(build_reentrant(rng, "e%d" % k))
         return cases
 
     def oracle(self, case, impl):
